@@ -36,7 +36,9 @@ LINK_TARGET_SUFFIX = {"xyz": ".blob", "mol2": ".xyz", "cdxml": ".blob", "unsuppo
 SUFFIX_OTHER = {"xyz": ".mol2", "mol2": ".xyz", "cdxml": ".xyz", "unsupported": ".xyz"}
 SUFFIX_UNSUPPORTED = ".dat"
 
-GIVEN_NAME = "c09_given_name"
+GIVEN_NAME = "c09_given_name_β(−)"      # a name override is text: not only ASCII
+NON_ASCII_TAG = "_Δ(−)β"
+NON_ASCII_LABELS = ["Cα", "Hβ′", "Ñ"]
 UNSUPPORTED_TABLE_FMT = "pdb"          # known to openbabel, not to molli's own codecs
 UNSUPPORTED_MORE = ["zzz", "", "XYZ", "sdf", "mol", "Mol2", "xyz ", "cdx"]
 
@@ -574,7 +576,9 @@ def default_sample(workdir: Path) -> Sample:
     return Sample(files, objs, workdir, "bundled:pentane_confs")
 
 
-def make_objs(mol2_path: Path) -> dict:
+def make_objs(mol2_path: Path, decorate: bool = True) -> dict:
+    """the objects handed to dump / dumps.  `decorate`: the text the writers emit verbatim (name -> xyz comment line /
+    mol2 molecule name, atom labels -> mol2 atom names) carries non-ASCII characters (Greek, a typographic minus, a prime)"""
     import molli as ml
 
     with open(mol2_path) as fh:
@@ -583,7 +587,13 @@ def make_objs(mol2_path: Path) -> dict:
         ens = ml.ConformerEnsemble.load_mol2(fh)
     with open(mol2_path) as fh:
         st = ml.Structure.load_mol2(fh)
-    return {"molecule": mol, "ensemble": ens, "structure": st}
+    objs = {"molecule": mol, "ensemble": ens, "structure": st}
+    if decorate:
+        for ob in objs.values():
+            ob.name = str(ob.name) + NON_ASCII_TAG
+            for a, lbl in zip(ob.atoms, NON_ASCII_LABELS):
+                a.label = lbl
+    return objs
 
 
 def action_key(a: dict) -> str:
